@@ -24,9 +24,15 @@ TRUSTED = [
     "inspect.formatannotation strings",
 ]
 
-SCHEMAS = {"Item": {"type": "object", "properties": {"id": {"type": "integer"}, "name": {"type": "string"}}, "required": ["id"]}}
+SCHEMAS = {"Item": {"type": "object", "properties": {"id": {"type": "integer"}, "name": {"type": "string"}}, "required": ["id"]},
+           "Meta": {"type": "object", "properties": {"k": {"type": "string"}, "n": {"type": "integer"}}},
+           "Thumb": {"type": "object", "properties": {"w": {"type": "integer"}}, "required": ["w"]}}
 JSON_OBJ = {"200": {"description": "ok", "content": {"application/json": {"schema": {"$ref": "#/components/schemas/Item"}}}}}
-KINDS = ["plain", "params", "manyopt", "sse", "ndjson", "octet", "overload", "overload3", "body"]
+KINDS = ["plain", "params", "manyopt", "sse", "ndjson", "octet", "overload", "overload3", "body",
+         "overload_meta", "overload_thumb", "partial_octet", "partial_sse"]
+# overload / overload_meta / overload_thumb: multi-content-type bodies whose application/json schema differs (Item / Meta / Thumb)
+# partial_*: the primary response is a plain 200 JSON object, a SECONDARY response streams (206 octet-stream / 202 SSE)
+BODY_KINDS = ("overload", "overload3", "body", "overload_meta", "overload_thumb")
 
 
 def qp(name: str, req: bool = False, t: str = "string", where: str = "query") -> dict:
@@ -57,9 +63,16 @@ def op_node(it: dict, path: str) -> dict:
         resp = {"200": {"description": "ok", "content": {"application/x-ndjson": {"schema": {"$ref": "#/components/schemas/Item"}}}}}
     elif k == "octet":
         resp = {"200": {"description": "ok", "content": {"application/octet-stream": {"schema": {"type": "string", "format": "binary"}}}}}
-    elif k in ("overload", "overload3"):
+    elif k == "partial_octet":
+        resp = {"200": JSON_OBJ["200"],
+                "206": {"description": "part", "content": {"application/octet-stream": {"schema": {"type": "string", "format": "binary"}}}}}
+    elif k == "partial_sse":
+        params += [qp("since")]
+        resp = {"200": JSON_OBJ["200"], "202": {"description": "later", "content": {"text/event-stream": {"schema": {"type": "string"}}}}}
+    elif k in ("overload", "overload3", "overload_meta", "overload_thumb"):
         params += [qp("force", False, "boolean")]
-        content = {"application/json": {"schema": {"$ref": "#/components/schemas/Item"}},
+        ref = {"overload_meta": "Meta", "overload_thumb": "Thumb"}.get(k, "Item")
+        content = {"application/json": {"schema": {"$ref": "#/components/schemas/" + ref}},
                    "multipart/form-data": {"schema": {"type": "object", "properties": {"f": {"type": "string", "format": "binary"}}}}}
         if k == "overload3":
             content["application/x-www-form-urlencoded"] = {"schema": {"type": "object", "properties": {"a": {"type": "string"}}}}
@@ -411,7 +424,7 @@ def gen_case(rng) -> dict:
         items = []
         for m in rng.sample(["get", "post", "put", "delete", "patch"], rng.randint(1, 2)):
             k = rng.choice(KINDS)
-            if k in ("overload", "overload3", "body") and m in ("get", "delete"):
+            if k in BODY_KINDS and m in ("get", "delete"):
                 m2 = "post" if not any(x["method"] == "post" for x in items) else "put"
                 if any(x["method"] == m2 for x in items):
                     k = "params"
@@ -434,6 +447,26 @@ def uniform_case(rng) -> dict:
     return c
 
 
+def shared_tag_case(rng) -> dict:
+    """ONE tag (single, uniformly spelled) holding >= 2 multi-content-type operations whose JSON bodies use different
+    schemas, plus operations whose primary response is plain JSON and a secondary response streams; the mock of a tag is
+    produced by one generator instance for all its operations, so state carried between operations shows up here"""
+    tag = rng.choice([None, ["docs"], ["Users"]])
+    kinds = rng.sample(["overload", "overload_meta", "overload_thumb", "overload3"], rng.randint(2, 3)) \
+        + rng.sample(["partial_octet", "partial_sse", "sse", "params", "body"], rng.randint(1, 3))
+    rng.shuffle(kinds)
+    slots = [(p, m) for p in ["/d", "/d/{id}", "/r"] for m in ["post", "put", "patch"]]
+    rng.shuffle(slots)
+    by_path: dict[str, list] = {}
+    for i, (k, (p, m)) in enumerate(zip(kinds, slots)):
+        if k in ("partial_octet", "partial_sse", "sse", "params") and rng.random() < 0.5 and \
+                not any(x["method"] == "get" for x in by_path.get(p, [])):
+            m = "get"
+        by_path.setdefault(p, []).append({"method": m, "opid": f"op{i}{k.title().replace('_', '')}", "tags": tag, "kind": k})
+    return {"strategy": rng.choice(t07.STRATEGIES), "render": "json",
+            "paths": [{"path": p, "items": its} for p, its in by_path.items()]}
+
+
 # ---------------------------------------------------------------- entry
 GUARDS = {1: "F13a", 2: "F13b", 3: "F01e"}
 
@@ -452,6 +485,7 @@ def main(chk: Check, replay: dict | None = None) -> int:
     inputs = [c["input"] for c in load_corpus("C13")]
     n = 300 if chk.thorough else 36
     inputs += [gen_case(rng) for _ in range(n)] + [uniform_case(rng) for _ in range(n // 2)]
+    inputs += [shared_tag_case(rng) for _ in range(n // 3)]
     texts: list[tuple[str, str, str]] = []
     cases = run_pipeline(inputs, chk, texts)
     gcodes = None
@@ -516,7 +550,7 @@ def main(chk: Check, replay: dict | None = None) -> int:
         chk.sample({"input": c["input"], "obs": c["obs"]})
     return chk.finish(TRUSTED,
                       rule="pipeline: corpus + seeded documents (operation kinds plain/params/many-optional/SSE/NDJSON/octet-stream/"
-                           "2- and 3-content-type overloads/JSON body x tag sets incl. multi-tag and spelling variants x 3 strategies) "
-                           "+ a single-tag uniformly-spelled stream; scanners: every distinct method text the real generator produced "
+                           "2- and 3-content-type overloads with different JSON schemas/JSON body/plain-200-plus-secondary-streaming-response x tag sets incl. multi-tag and spelling variants x 3 strategies) "
+                           "+ a single-tag uniformly-spelled stream + a one-tag stream with >= 2 overloaded operations of different body schemas; scanners: every distinct method text the real generator produced "
                            "in those runs + synthetic standard/overloaded renderings + adversarial line soups; non-trivial (scanner) = "
                            "some output line; distinct by input JSON / text")
